@@ -1,7 +1,7 @@
 \* blacklists: address 2 and identity 3 are blacklisted
 SPECIFICATION Spec
 CONSTANTS NP = 3 NA = 3 NS = 1 V6 = {3} BlackAddr = {2} BlackMid = {3} IpCap = 2 IntroCap = 1 SvcCap = 1
-          Defects = {} MaxDepth = 4
+          NB = 0 IterBufs = {} Defects = {} MaxDepth = 4
 VIEW NoRetOp
 INVARIANT TypeOK
 INVARIANT LookupsAgree
